@@ -108,6 +108,8 @@ def standard_lattice(seed, quick):
         {"kwargs": {"flow_config": {"ftype": "maf"}}},
         {"kwargs": {"flow_config": {"ftype": "nsf"}}},
         {"kwargs": {"shrinkage_expectation": "t"}},
+        {"kwargs": {"shrinkage_expectation": "LogT"}},
+        {"kwargs": {"shrinkage_expectation": "T"}},
         {"kwargs": {"flow_proposal_class": "clusteringflowproposal"}},
         {"kwargs": {"constant_volume_mode": False}},
         {"kwargs": {"maximum_uninformed": False}},
@@ -367,7 +369,8 @@ def check_std_results(fs, model, errs, capped=False, tol=1e-9):
         err("stored-logP-differs-from-model", det)
     if not okl:
         err("stored-logL-differs-from-model", det)
-    rec = recompute_standard(samples["logL"], nlive, ns.iteration, ns.state.expectation, finalised)
+    # the expectation that was asked for (spelling is case-insensitive by nessai's own validation)
+    rec = recompute_standard(samples["logL"], nlive, ns.iteration, str(ns.state.expectation).lower(), finalised)
     for name, val in (("fs.logZ", fs.logZ), ("ns.log_evidence", ns.log_evidence), ("result['log_evidence']", d["log_evidence"])):
         if not (abs(float(val) - rec["logZ"]) <= tol * (1 + abs(rec["logZ"]))):
             err("log-evidence-differs-from-recomputation", f"{name}={val!r} vs {rec['logZ']!r}")
